@@ -54,7 +54,7 @@ def gen_pairs(rng, per_op):
             w, h = rng.randint(1, dw), rng.randint(1, dh)
             dx, dy = rng.randint(0, dw - w), rng.randint(0, dh - h)
             seed = rng.randrange(1, 2 ** 31)
-            geo = rng.choice(["inside", "inside", "outside", "scaled", "bilinear", "translate", "conv", "conv"])
+            geo = rng.choice(["inside", "inside", "outside", "scaled", "bilinear", "translate", "conv", "conv", "persp"])
             if geo == "conv" and fam in ("S2", "S3"):
                 fam = "S1"      # a solid colour cannot carry the filter; 565 sources use other fetchers
             sw, sh = dw + 6, dh + 4
@@ -73,6 +73,14 @@ def gen_pairs(rng, per_op):
                 t = [FX1, 0, 0, FX1, FX1 // 2, FX1 // 4]
             elif geo == "translate":
                 t = [FX1, 0, 0, FX1, rng.choice([-2, 1, 3]) * FX1, rng.choice([-1, 0, 2]) * FX1]
+            elif geo == "persp":
+                # projective transforms (diagonal, sheared and rotated upper part): the corners of the request map to a
+                # quadrilateral, part of which lies outside a non-repeating source
+                srep = rng.choice([0, 0, 0, 1, 2, 3])
+                sfilt = rng.choice([3, 4])
+                t = rng.choice([[FX1, 0, 0, FX1, 0, 0], [FX1 * 3 // 2, 0, 0, FX1 * 3 // 4, rng.choice([0, FX1 // 2]), 0],
+                                [FX1, FX1 // 4, 0, FX1, 0, 0], [0, FX1, -FX1, 0, 0, (dh + 3) * FX1]])
+                sw, sh = dw + rng.choice([-2, 0, 3]), dh + rng.choice([0, 2])
             elif geo == "conv":
                 # convolution / separable convolution kernels with gain 1/2, 1, 3/2 (codes understood by the driver):
                 # an alpha-less image under a kernel whose coefficients do not sum to 1 is not opaque any more
@@ -113,6 +121,8 @@ def gen_pairs(rng, per_op):
                     quant |= 2          # destination with REPEAT_NORMAL: the alpha-less one is flagged opaque
             if fam in ("S1", "S2") and rng.random() < 0.5:
                 mkind = rng.choice([1, 4, 6, 6, 2, 5])       # the same mask in both presentations of the source
+            if geo == "persp":
+                quant |= rng.randint(1, 15) << 4
             for vi, v in enumerate(variants):
                 lines.append(preq(pair, vi, cmp_, op, v.get("skind", skind), v["sfmt"], sw, sh, srep, sfilt, t,
                                   v.get("mkind", mkind), v.get("dfmt", dfmt), dw, dh, sx, sy, dx, dy, w, h, seed,
